@@ -300,6 +300,75 @@ func checkC10(c *Ctx) {
 		}
 	}
 
+	// success sentinels must not be manufactured on a failure edge: io.EOF / ErrFinished are what ReadFrom turns into success,
+	// so producing one of them where another error is known non-nil launders that error (possibly a real I/O failure,
+	// since the VLQ reader reports every failed read as ErrUnexpectedEOF)
+	for _, fn := range rscope {
+		// non-nil edges of all call-produced errors of fn
+		var nnEdges []edge
+		for _, s := range errorSites(fn) {
+			if s.errV == nil {
+				continue
+			}
+			visited := map[ssa.Value]bool{}
+			var visit func(v ssa.Value)
+			visit = func(v ssa.Value) {
+				if visited[v] {
+					return
+				}
+				visited[v] = true
+				eq := errEq(fn, v)
+				nn, _ := nonNilEdges(eq)
+				nnEdges = append(nnEdges, nn...)
+				for w := range eq {
+					for _, u := range liveRefs(w) {
+						if phi, ok := u.(*ssa.Phi); ok {
+							visit(phi)
+						}
+					}
+				}
+			}
+			visit(s.errV)
+		}
+		if len(nnEdges) == 0 {
+			continue
+		}
+		for _, b := range fn.Blocks {
+			for _, in := range b.Instrs {
+				l, ok := in.(*ssa.UnOp)
+				if !ok || l.Op != token.MUL {
+					continue
+				}
+				g, ok := l.X.(*ssa.Global)
+				if !ok || !isErrorType(g.Type().(*types.Pointer).Elem()) {
+					continue
+				}
+				name := g.Pkg.Pkg.Name() + "." + g.Name()
+				if name != "io.EOF" && name != "smf.ErrFinished" {
+					continue
+				}
+				// used as a value (not only compared)?
+				produced := false
+				for _, u := range liveRefs(l) {
+					switch u.(type) {
+					case *ssa.Return, *ssa.Store, *ssa.Phi:
+						produced = true
+					}
+				}
+				if !produced {
+					continue
+				}
+				under := false
+				for _, e := range nnEdges {
+					if edgeDominates(fn, e, b) || e.to == b {
+						under = true
+					}
+				}
+				c.Check(!under, "C10.3", "success sentinel "+name+" produced in "+FuncName(fn), p.Pos(l.Pos()), "produced outside any failure edge (genuine end of input)", name+" (which ReadFrom turns into success) is produced on an edge where another error is known non-nil: that error — possibly a source failure — is laundered into success")
+			}
+		}
+	}
+
 	// ---- C10.4
 	c.Fn(FuncName(writeFile))
 	found := false
